@@ -666,6 +666,9 @@ class RTDCWriter:
             raise NotImplementedError(
                 f"Cannot convert {type(cmp_array)} to table!")
         group = self.h5file.require_group("tables")
+        # replace table?
+        if name in group and self.mode == "replace":
+            del group[name]
         tab = group.create_dataset(
             name,
             data=cmp_array,
